@@ -163,13 +163,36 @@ def _determinism():
     yield "two evaluations assign identical value numbers (determinism)", prints[0] == prints[1] and prints[0][0] > 10, f"site counts {prints[0][0]} vs {prints[1][0]}"
 
 
+def _term_domain():
+    """The zero test behind the explicit-game rules must tell a true identity from a false one."""
+    from .poly import to_poly, p_add, p_const
+    from .rules import game
+
+    x, y, z = ("param", "x"), ("param", "y"), ("param", "z")
+    s = ("add", x, y)
+    share = ("add", ("div", x, s), ("div", y, s))
+    yield "x/(x+y) + y/(x+y) == 1 as a rational function (R7.11, R1.1)", game.is_zero(p_add(to_poly(share), p_const(1), -1)) is True, ""
+    yield "x/(x+y) + y/(x+y) != 2 (a rule that cannot fail proves nothing)", game.is_zero(p_add(to_poly(share), p_const(2), -1)) is False, ""
+    root = ("call", "math.sqrt", s)
+    yield "sqrt(S) * sqrt(S) == S and S / sqrt(S) == sqrt(S)", game.same(to_poly(("mul", root, root)), to_poly(s)) is True and game.same(to_poly(("div", s, root)), to_poly(root)) is True, ""
+    phi = lambda a: ("call", "fn:phi_major", a)  # noqa: E731
+    yield "Phi(z) + Phi(-z) == 1 and Phi(z) + Phi(z) != 1", (game.is_zero(p_add(to_poly(("add", phi(z), phi(("neg", z)))), p_const(1), -1)) is True
+                                                             and game.is_zero(p_add(to_poly(("add", phi(z), phi(z))), p_const(1), -1)) is False), ""
+    m1 = ("max", ("sub", ("const", 1), ("div", x, s)), z)
+    m2 = ("max", z, ("div", y, s))
+    yield "max(1 - x/(x+y), z) == max(z, y/(x+y)): atoms are compared by the values of their arguments", game.same(to_poly(m1), to_poly(m2)) is True, ""
+    yield "|x - y| - (y - x) is zero for one choice of sign, |x - y| - x is not", (game.zero_up_to_abs(p_add(to_poly(("abs", ("sub", x, y))), to_poly(("sub", y, x)), -1)) is True
+                                                                                 and game.zero_up_to_abs(p_add(to_poly(("abs", ("sub", x, y))), to_poly(x), -1)) is False), ""
+    yield "a term with a value the run could not express proves no difference", game.is_zero(p_add(to_poly(("opq", "f", "v", (), 1)), to_poly(x), -1)) is None, ""
+
+
 def main() -> int:
     failures = 0
     ran = 0
     try:
         import itertools
 
-        for name, ok, msg in itertools.chain(_examples(), _determinism()):
+        for name, ok, msg in itertools.chain(_examples(), _determinism(), _term_domain()):
             ran += 1
             if not ok:
                 failures += 1
@@ -181,4 +204,4 @@ def main() -> int:
         print(f"SELFCHECK-FAIL exception {type(e).__name__}: {e}")
         return 2
     print(f"selfcheck: {ran} embedded examples, {failures} failures")
-    return 0 if failures == 0 and ran >= 8 else 2
+    return 0 if failures == 0 and ran >= 15 else 2
